@@ -106,7 +106,7 @@ pub fn run(outdir: &Path, tier: &str, seed: u64, shards: usize, _replay: Option<
     let schema_explicit = SchemaDoc { defs: explicit_defs, schema_block: None , input_defaults: vec![] };
     let doc = QueryDoc { defs: vec![QDef::Op { kind: OpKind::Query, name: Some("Q".into()), vars: vec![], sel }] };
     let opts = Opts { operation_name: Some("Q".into()), ..Opts::default() };
-    let json_builtin = JsonVariant { data_wrapped: true, builtin_scalars: 1, meta_types: 2, is_one_of: false };
+    let json_builtin = JsonVariant { data_wrapped: true, builtin_scalars: 1, meta_types: 2, is_one_of: false, leftover_reason: false };
     for (fmt, ext, text) in [
         ("sdl", "graphql", schema.render_sdl()),
         ("sdl with explicit `scalar ID`", "graphql", schema_explicit.render_sdl()),
